@@ -238,3 +238,20 @@ for _p in ('C01', 'C03', 'C06', 'C07'):
 PROPS['C08']['lemmas'] = ['L_Idx_bound', 'L_FlatOff_uniform']
 PROPS['C11']['lemmas'] = ['L_Idx_bound', 'L_FlatOff_uniform']
 PROPS['C11']['level_text'] += " The three write_robot functions are verified up to `game = {...}` (C08): list lengths agree (total*n_tiles + 2 each), every player string is one of the three, the single final state is the absorbing winner total*n_tiles+1 and the loser total*n_tiles is absorbing, every state's transition list is the non-empty cell of its builder."
+
+# ---- the composed suffix of StochasticGame.solve (typed) is under contract: update the claims
+SOLVE_TXT = (" StochasticGame.solve itself is verified in two parts: the validating prefix (C09, dynamically typed) and, from the statement after"
+             " `state_list = self.init_states()`, the typed suffix composing every phase (Solver(...), solve_reachability, the probabilities list,"
+             " prune_reachability, prune_stochastich_game when pruning is on, solve_total_rewards, the result tuple) against the callees' contracts only.")
+PROPS['C01']['level_text'] += SOLVE_TXT + " For the tuple solve returns: probabilities[t] is the node value, finals are exactly 1, states outside any can-reach predicate exactly 0, 0 <= value <= V, residual <= 1e-6 at every non-final state (w.r.t. the input transition lists)."
+PROPS['C02']['level_text'] += SOLVE_TXT + " For the tuple solve returns: rewards[t] = er[t] >= 0 and |er[t] - BW(t, er)| <= 1e-6 at EVERY state, where BW is over the node lists at exit, and those lists are proved to be exactly the conditioned game: with pruning on, Player 1 keeps FilterAlive(FilterLab(input list, reported reachability strategy)), probabilistic states keep Renorm(FilterAlive(input list)) (or the untouched input list), Player 2 keeps its input list -- or the state was cleared by prune_states, which happens only to non-Player-1 states outside ANY predicate satisfying the inversion rule of forward reachability in the conditioned game; with pruning off only FilterLab is applied."
+PROPS['C02']['undecided_clauses'] = [PROPS['C02']['undecided_clauses'][0]]
+PROPS['C03']['level_text'] += SOLVE_TXT + " The conditioned-game statement above (C02) is the solve-level form of C03; no list object that existed before the call is modified."
+PROPS['C03']['level_note'] = "Trusted: z3/cvc5, the encoder (heap model of list objects and object fields), A-REAL, A-BRIDGE (the typed precondition of the suffix is what the validating prefix establishes; linked by hand). Termination of prune_states not proved."
+PROPS['C05']['level_text'] += SOLVE_TXT + " For the tuple solve returns: final_strategies[a] is the arg-list over the node list at exit (= the conditioned game, see C02/C03), reachability_strategies[a] the arg-list over the input list."
+PROPS['C05']['undecided_clauses'] = ["optimality w.r.t. the TRUE conditioned rewards in cyclic games (C02's accuracy clause)",
+                                     "the inclusion final[s] within reach[s] follows from the proved solve-level facts (final = ArgEqR over FilterAlive(FilterLab(input, reach[s])) whose labels lie in reach[s] by the proved lemmas L_ArgEqR_from, L_FA_from, L_FL_from) but is not stated as a single discharged obligation"]
+PROPS['C10']['level_text'] += SOLVE_TXT + " The frame of the whole suffix is discharged: solve modifies only the five mutable fields of its own nodes and the fields of the Solver object it allocates; every list object that existed at entry (in particular every caller-owned inner transition list, which the nodes alias) and every field of the StochasticGame object keep their content."
+PROPS['C10']['level_note'] = "Trusted: z3/cvc5, the encoder's heap model, A-BRIDGE. 'Solving again returns identical results' = this frame + the static determinism scan; the repeated-solve sequences themselves are exercised by the bounded executable contracts."
+PROPS['C06']['undecided_clauses'] = [PROPS['C06']['undecided_clauses'][0], "Solver.__init__ (math.log/math.floor) is an assumed contract whose constants are re-computed from the real source by a static obligation; count_transitions and Node.__eq__ are not under contract"]
+PROPS['C06']['level_text'] += SOLVE_TXT + " The only exception the suffix lets escape is the ValueError of the reachability phase, exactly when pruning is on and the reported rp[0] is 0."
